@@ -189,6 +189,18 @@ static outcome run_api(const char *api, const scen *s) {
             memset(&dm, 0, sizeof(dm));
             int df = GUARDED(varintPFORDecode(buf, ys, &dm));
             o.same = !df && dm.count == n && !memcmp(ys, s->xs, n * 8);
+            /* "fully correct" means correct through EVERY reader of the
+             * format, the random-access one included */
+            for (size_t i = 0; o.same && i < n; i++) {
+                uint64_t v = 0;
+                varintPFORMeta gm;
+                memset(&gm, 0, sizeof(gm));
+                int gf = GUARDED(varintPFORReadMeta(buf, &gm));
+                gf = gf ? gf : GUARDED(v = varintPFORGetAt(buf, (uint32_t)i, &gm));
+                if (gf || v != s->xs[i]) {
+                    o.same = 0;
+                }
+            }
         }
     } else if (!strcmp(api, "FloatEncode") || !strcmp(api, "FloatDecode")) {
         static double dx[600], dy[600];
